@@ -53,3 +53,13 @@ contract(f"{RT}:Router._cbf_compute_timeout_ms", props=["C06"], shapes={"self": 
          ensures={"between_min_and_max": "self.mib.itsGnCbfMinTime <= result <= self.mib.itsGnCbfMaxTime",
                   "far_senders_first": "implies(dist_m >= self.mib.itsGnDefaultMaxCommunicationRange, result == self.mib.itsGnCbfMinTime)"},
          **dict(SI, spec_module="spec_geo"))
+
+import copy as _copy
+ROUTER_CBF = _copy.copy(ROUTER)
+ROUTER_CBF.fields = dict(ROUTER.fields, _cbf_buffer=T.keymap("cbf_buffer", T.tuple(GNADDR, T.int(0, 65535)), T.opaque("timer")))
+contract(f"{RT}:Router._cbf_timeout", props=["C15", "C06"], shapes={"self": ROUTER_CBF, "cbf_key": T.tuple(GNADDR, T.int(0, 65535)), "full_packet": T.bytes(0, 2000)},
+         requires=["map_key0(self._cbf_buffer) == cbf_key"],
+         ensures={"sent_at_most_once": "n_sent() <= 1",
+                  "sends_only_the_entry_it_removed_itself": "implies(n_sent() == 1, old(map_has(self._cbf_buffer, cbf_key)) and not map_has(self._cbf_buffer, cbf_key) and sent0() == full_packet)",
+                  "cancelled_entry_is_never_sent": "implies(not old(map_has(self._cbf_buffer, cbf_key)), n_sent() == 0)"},
+         cover=["n_sent() == 1", "n_sent() == 0"], frame_check=False, **SB)
